@@ -7,6 +7,7 @@ from common import case_line
 from gen import bytes_upto
 
 LEVEL = "proof"
+BIG_IO = lambda a: "-M" in a        # which command lines of cases.rand_cli the large-input stream keeps
 
 BOUNDS = ["1", "2", "3", "1,2", "1:2", "2:3", "1,3", "2:", "1:", "1,2:", "{1}Z", "A{2}", "{1}x{2}", "{1}x{2}y",
           "1=F", "2=F", "3=F,4=G", "1,2=F", "{2:}x", "{1:2}x{3}", "1:2,4", "x{1,2}y", "1,2,3", "2,3=F", "3:", "{3:=F}z",
